@@ -25,7 +25,8 @@ import (
 // (generated once with go-ethereum; the engine does not decode RLP, see
 // svModel_DecodeTransaction): two locks (5 and 7 wei) and two redeems (3, 4).
 type svExtTx struct {
-	create bool // contract creation: no recipient
+	to     *ethcmn.Address // recipient when it is not the ETH lock/redeem contract
+	create bool            // contract creation: no recipient
 	raw    []byte
 	nonce  uint64
 	value  int64
@@ -72,6 +73,9 @@ func svModel_DecodeTransaction(data []byte) (*ethtypes.Transaction, error) {
 		return nil, errors.New("Unable to decode Bytes")
 	}
 	to := &svEthContract
+	if x.to != nil {
+		to = x.to
+	}
 	if x.create {
 		to = nil
 	}
@@ -84,12 +88,21 @@ func svModel_VerifyLock(tx *ethtypes.Transaction, contractabi string) (bool, err
 }
 
 // sv:models github.com/Oneledger/protocol/chains/ethereum.StringTOABI
-func svModel_StringTOABI(contractAbi string) (*abi.ABI, error) { return &abi.ABI{}, nil }
+func svModel_StringTOABI(contractAbi string) (*abi.ABI, error) {
+	if contractAbi == "" { // go-ethereum's parser refuses an empty document
+		return nil, errors.New("Unable to get contract Abi for Test Token from ChainDriver options")
+	}
+	return &abi.ABI{}, nil
+}
 
 // sv:models github.com/Oneledger/protocol/chains/ethereum.getSignFromName
 func svModel_getSignFromName(contractAbi *abi.ABI, methodName string, funcSigs map[string]string) (string, error) {
-	if methodName == "redeem" {
-		return "db006a75", nil
+	// the ABI documents the harness configures correspond to the signature
+	// tables the callers pass: the method exists iff the table lists it
+	for sel, sig := range funcSigs {
+		if len(sig) > len(methodName) && sig[:len(methodName)+1] == methodName+"(" {
+			return sel, nil
+		}
 	}
 	return "", errors.New("Function not found in abi ")
 }
